@@ -14,7 +14,8 @@ Record snap := {
   sn_notes : list Z;           (* all disconnect notifications so far: address, role, ... *)
   sn_sw : list Z;              (* per stream: 0 new 1 looked-up 2 tracked 3 handler running
                                   4 reset 5 ended *)
-  sn_ctx : list Z;             (* per stream: 0 no handler start reported, 1 ctx live, 2 cancelled *)
+  sn_ctx : list Z;             (* per stream: 0 not tracked and no handler start reported, 1 ctx live,
+                                  2 cancelled *)
   sn_started : list Z          (* handler starts so far: stream, peer id, address, role, ... *)
 }.
 (* [o_seen = false]: the state right after this event could not be observed (the event happened
@@ -77,6 +78,7 @@ Definition snap_of (np na ns : N) (r : reg) : snap :=
      sn_notes := flat_map (fun pe => [Z.of_N (p_addr pe); p_role pe]) (notes r);
      sn_sw := map (fun s => sw_code (get s (sw r))) (upto ns);
      sn_ctx := map (fun s => if existsb (fun x => match x with (s', _, _, _) => (s' =? s)%N end) (started r)
+                                || match get s (sw r) with Some (SwTracked _ _ _) => true | _ => false end
                              then (if ctx_cancelled r s then 2 else 1) else 0) (upto ns);
      sn_started := flat_map (fun x => match x with (s, p, pe, _) =>
                                         [Z.of_N s; Z.of_N p; Z.of_N (p_addr pe); p_role pe] end) (started r) |}.
@@ -196,9 +198,10 @@ Fixpoint check_starts (hist : list event) (tracked_in : list (sid * bool)) (look
   | _ => Some "handler-identity"%string
   end.
 
-(* a running handler whose peer is not registered must have a cancelled context *)
+(* a wrapper run past addStream (handler running or about to be invoked) whose peer is not
+   registered must have a cancelled context *)
 Definition check_ctx (ns : N) (hist : list event) (sn : snap) : bool :=
-  forallb (fun s => if (cell (sn_sw sn) s =? 3)
+  forallb (fun s => if (cell (sn_sw sn) s =? 3) || (cell (sn_sw sn) s =? 2)
                     then match stream_peer hist s with
                          | Some p => reg_in sn p || (cell (sn_ctx sn) s =? 2)
                          | None => true
